@@ -128,6 +128,10 @@ def get_augmented_cycle_stat_from_samples(vals, cycle_vect, phase, func=np.mean)
 
     for ii in range(ncycles):
         inds = map_cycle_to_samples_augmented(cycle_vect, ii, phase)
+        if inds is None:
+            # No augmented cycle - as in the slice-cache route
+            out[ii] = np.nan
+            continue
         if isinstance(vals, tuple):
             args = [v[inds] for v in vals]
             out[ii] = func(*args)
@@ -218,14 +222,13 @@ def map_cycle_to_samples(cycle_vect, ii):
 
 def map_cycle_to_samples_augmented(cycle_vect, ii, phase):
     """which samples does the augmented iith cycle contain?"""
-    prev = np.where(cycle_vect == ii-1)[0]
-    prev_segment_inds = np.where(phase[prev] > 1.5*np.pi)[0]
-    if len(prev_segment_inds) == 0:
-        # No candidate trough in previous cycle
+    inds = np.where(cycle_vect == ii)[0]
+    # Same definition as augment_slice: back to the closest trough to the left
+    xx = np.where(np.flipud(phase[:inds[0]]) < 1.5*np.pi)[0]
+    if len(xx) == 0:
+        # No candidate trough before this cycle
         return None
-    trough_in_prev = prev[prev_segment_inds[0]]
-    stop = np.where(cycle_vect == ii)[0][-1] + 1
-    return np.arange(trough_in_prev, stop)
+    return np.arange(inds[0] - xx[0], inds[-1] + 1)
 
 
 def map_sample_to_cycle(cycle_vect, ii):
